@@ -73,7 +73,7 @@ CHECKS = {
     'C07': (
         'exploration',
         'property-based testing: round-trip oracle (save, load, save = save; loaded accessors = original accessors) at every state entry and paused point, through three media and two loader configurations',
-        'Generated process programs (nested inputs, nested/dynamic outputs, wait msg/data, continuation args and kwargs over JSON scalars, nested containers, tuples and UUIDs; finished/unsuccessful/excepted/killed endings; pause/kill schedules) and workchain outlines are checkpointed at every ENTERED_STATE and every paused quiescent point; checkpoints are also taken from inside 8 lifecycle hooks, for a class with a non-identity input/output codec and for spec'd inputs with non-constant callable defaults; each checkpoint travels as deep copy, pickle and YAML into a fresh event loop and is saved again: bundles must be structurally identical (exceptions by type+args, traceback text ignored) and pid/state/raw_inputs/inputs/outputs/ctx/status/paused/creation_time/outcome accessors equal.',
+        'Generated process programs (nested inputs, nested/dynamic outputs, wait msg/data, continuation args and kwargs over JSON scalars, nested containers, tuples and UUIDs; finished/unsuccessful/excepted/killed endings; pause/kill schedules) and workchain outlines are checkpointed at every ENTERED_STATE and every paused quiescent point; checkpoints are also taken from inside 8 lifecycle hooks, for a class with a non-identity input/output codec and for declared inputs with non-constant callable defaults; each checkpoint travels as deep copy, pickle and YAML into a fresh event loop and is saved again: bundles must be structurally identical (exceptions by type+args, traceback text ignored) and pid/state/raw_inputs/inputs/outputs/ctx/status/paused/creation_time/outcome accessors equal.',
         'tblib absent (traceback text ignored as the statement allows). A workchain WAITING on live futures is not savable and is counted, not judged. The custom loader is given in both save and load contexts.',
         'DESIGN.md section 3 C07',
     ),
@@ -143,7 +143,7 @@ CHECKS = {
     'C18': (
         'exploration',
         'property-based testing over generated process sets and FIFO interleavings on the harness-owned loop; Process.current() sampled at every user-code point and between callbacks',
-        'Up to 4 generated processes with async steps, gates, launched children, re-entrantly executed processes (nest_asyncio on the harness loop, in dedicated worker processes) call_soon callbacks (also scheduled on the parent from a child's step), children stepped in the parent's own task, control requests on children and self-pauses run on one loop with staggered starts: current() must be the running process at every step entry, after every await, in every callback, after launch() and after a nested execute(), and in every lifecycle hook the run produces by itself; the harness must see None between callbacks. All pairs (quick) / triples (thorough) of 6 catalogue shapes at 3 start offsets are enumerated.',
+        'Up to 4 generated processes with async steps, gates, launched children, re-entrantly executed processes (nest_asyncio on the harness loop, in dedicated worker processes) call_soon callbacks (also scheduled on the parent from the step of a child), children stepped in the parent's own task, control requests on children and self-pauses run on one loop with staggered starts: current() must be the running process at every step entry, after every await, in every callback, after launch() and after a nested execute(), and in every lifecycle hook the run produces by itself; the harness must see None between callbacks. All pairs (quick) / triples (thorough) of 6 catalogue shapes at 3 start offsets are enumerated.',
         'Construction-time hooks and hooks triggered by external pause/play/kill run in the caller and are not sampled; no control requests.',
         'DESIGN.md section 3 C18',
     ),
